@@ -17,6 +17,7 @@ class FakeTime:
         self.env = list(env)
         self.first_sleep = True
         self.reads = 0
+        self.ovs = []        # overshoot of the first sleep after each recur (0 if it did not sleep)
 
     def time(self):
         self.reads += 1
@@ -35,6 +36,8 @@ class FakeTime:
             if e:
                 ov, j = e["dt"], e["j"]
             self.first_sleep = False
+            if self.ovs:
+                self.ovs[-1] = ov
         self.mono += r + ov
         self.off -= j
 
@@ -46,16 +49,18 @@ def replay(beh, q):
     ft = FakeTime(q, beh["env"])
     old = (doing.time, timing.time)
     doing.time = timing.time = ft
-    starts = []
+    starts, ends = [], []
     try:
         class D(doing.Doer):
             def recur(self, tyme):
                 starts.append(ft.mono)
                 ft.first_sleep = True
+                ft.ovs.append(0)
                 e = ft.take("work")
                 if e:
                     ft.mono += e["dt"]
                     ft.off -= e["j"]
+                ends.append(ft.mono)
                 return len(starts) >= n
         pre = ft.take("pre")
         doist = doing.Doist(real=True, tock=beh["init_tock"] * q, doers=[D()])
@@ -64,7 +69,7 @@ def replay(beh, q):
         doist.tock = pre["tock"] * q
         run_start = ft.mono
         try:
-            with core.watchdog(10.0):
+            with core.watchdog():
                 doist.do()
             err = None
         except (Exception, core.Hang) as ex:      # observable outcome
@@ -74,7 +79,46 @@ def replay(beh, q):
 
     def qn(v):
         return int(v) if float(v).is_integer() else v
-    return {"starts": [qn(x) for x in starts], "runStart": qn(run_start), "err": err, "tock": pre["tock"]}
+    return {"starts": [qn(x) for x in starts], "runStart": qn(run_start), "err": err, "tock": pre["tock"],
+            "ends": [qn(x) for x in ends], "ovs": list(ft.ovs)}
+
+
+def judge(b, real):
+    """The property decides, not the model: -> (violation text | None, divergence text | None).
+    never early: cycle k starts >= k tocks after the run started (any clock behaviour);
+    no drift: when every backward jump during the run is fully detectable (it follows the clock read that began the
+    cycle with no time in between: work of duration 0), cycle k starts exactly at max(its deadline, end of the previous
+    cycle's work) plus the overshoot of the sleep that preceded it.
+    A run that differs from the model's prediction but satisfies both (possible only under hidden backward jumps, where
+    the property does not fix the exact start times) is a divergence: recorded, not an alarm."""
+    tock, rs, st = real["tock"], real["runStart"], real["starts"]
+    if real["err"]:
+        return "do() raised %s" % real["err"], None
+    if len(st) != len(b["starts"]):
+        return "do() ran %d cycles, expected %d" % (len(st), len(b["starts"])), None
+    early = [k for k, x in enumerate(st) if x - rs < k * tock]
+    if early:
+        return ("cycle %d started early: starts %s run start %s tock %s (model starts %s)" %
+                (early[0], st, rs, tock, b["starts"])), None
+    hidden_jump = any(e["a"] != "pre" and e["j"] > 0 and not (e["a"] == "work" and e["dt"] == 0) for e in b["env"])
+    if not hidden_jump:
+        for k in range(1, len(st)):
+            want = max(rs + k * tock, real["ends"][k - 1]) + real["ovs"][k - 1]
+            if st[k] != want:
+                return ("drift: cycle %d started at %s, lossless waiting gives %s (starts %s run start %s tock %s, "
+                        "work ends %s, overshoots %s)" % (k, st[k], want, st, rs, tock, real["ends"], real["ovs"])), None
+    if st != b["starts"]:
+        return None, "starts %s differ from the model's %s under backward jumps (never early holds)" % (st, b["starts"])
+    return None, None
+
+
+def replay_case(ctx, case):
+    b = case["behaviour"]
+    b.setdefault("init_tock", b.get("itock"))
+    bad, div = judge(b, replay(b, case.get("q", 0.25)))
+    if div:
+        print("note:", div)
+    return [bad] if bad else []
 
 
 def run(ctx):
@@ -97,6 +141,7 @@ def run(ctx):
             ctx.violation("model violates %s" % v, {"tlc_tail": rr.out[-5000:]})
     if len(behs) < 100:
         raise core.MachineryError("too few behaviours: %d" % len(behs))
+    divergences = []
     for i, b in enumerate(behs):
         b["init_tock"] = b["itock"]
         qq = SCALES[(i + ctx.seed) % len(SCALES)]
@@ -104,17 +149,15 @@ def run(ctx):
         ctx.traces += 1
         jumps = sum(1 for e in b["env"] if e["j"] > 0)
         ctx.case(str(b["env"]), {"env": b["env"], "starts": b["starts"]} if i % 501 == 7 else None)
-        tock = real["tock"]
-        early = [k for k, st in enumerate(real["starts"]) if st - real["runStart"] < k * tock]
-        if real["err"]:
-            ctx.violation("do() raised %s" % real["err"], {"behaviour": b, "real": real, "q": qq})
-        elif early:
-            ctx.violation("cycle %d started early: starts %s run start %s tock %s (model starts %s)" %
-                          (early[0], real["starts"], real["runStart"], tock, b["starts"]), {"behaviour": b, "real": real, "q": qq})
-        elif real["starts"] != b["starts"]:
-            ctx.violation("cycle start times differ from the model (drift or pacing): code %s model %s (tock %s, jumps %d)" %
-                          (real["starts"], b["starts"], tock, jumps), {"behaviour": b, "real": real, "q": qq})
-    return ctx.finish(rule="behaviours = clock environments (time before do(), tock change, per-cycle work, first-sleep overshoot, "
+        bad, div = judge(b, real)
+        if bad:
+            ctx.violation(bad, {"behaviour": b, "real": real, "q": qq})
+        elif div:
+            divergences.append(div)
+    if divergences:
+        ctx.note("%d of %d runs differ from the model's start times without breaking C07 (first: %s)" %
+                 (len(divergences), len(behs), divergences[0]))
+    return ctx.finish(extra={"model_divergences_not_violations": len(divergences)}, rule="behaviours = clock environments (time before do(), tock change, per-cycle work, first-sleep overshoot, "
                            "backward jumps at the end of work / during the first sleep); distinct by environment script",
                       assumptions=["forward clock jumps excluded as documented; a backward jump smaller than the time that passed "
                                    "since the previous clock read is undetectable in principle and only delays (never hastens) cycles; "
